@@ -10,7 +10,17 @@ from ivf import manifest_data as md  # noqa: E402
 
 checks = []
 for pid in sorted(md.CLAIMED):
-    c = md.CLAIMED[pid]
+    c = dict(md.CLAIMED[pid])
+    add = getattr(md, "ADDENDA", {}).get(pid)
+    if add:
+        ref, text, tech = add
+        c["design_ref"] = c["design_ref"] + "; added: " + ref
+        if "  Not decided:" in c["text"]:
+            head, tail = c["text"].split("  Not decided:", 1)
+            c["text"] = head + "  Also decided: " + text + ".  Not decided:" + tail
+        else:
+            c["text"] = c["text"] + "  Also decided: " + text + "."
+        c["technique"] = c["technique"] + "; " + tech
     checks.append({
         "property_id": pid,
         "quick_cmd": "./check %s --tier quick" % pid,
